@@ -22,7 +22,7 @@ from .. import q
 from ..cfg import must_facts, holds
 from ..mutate import mutate, remove_stmts, replace_expr, replace_stmt, parse_stmt, parse_expr
 from ..model import AnalysisError
-from ..x_valuewalk import walk, single_assignment
+from ..x_valuewalk import walk, single_assignment, branch_flag
 from ..rules import tainted_names
 
 TECHNIQUE = "case-table evaluation by constant folding of the mode tests + guard-dominance facts + codec/agreement tables"
@@ -188,7 +188,9 @@ def rule_json(ck):
             a, b = rp.args
             if isinstance(a, ast.Constant) and a.value == "</" and isinstance(b, ast.Constant) and isinstance(b.value, str):
                 good = "</" not in b.value and b.value.replace("\\/", "/") == "</"
-        ck.ob(rid, f, r.ast, good, "the result passes through .replace('</', R) with R free of '</' and JSON-equivalent ('<\\/')")
+        if not good and isinstance(r.ast.value, ast.Name) and base_ok and absent_at(f.cfg, r, ("</", "<", "/"), {r.ast.value.id}):
+            good = True  # fast path: nothing to replace
+        ck.ob(rid, f, r.ast, good, "the result passes through .replace('</', R) with R free of '</' and JSON-equivalent ('<\\/'), or is returned where '</' is known to be absent")
         # other replacements must not undo it
         for rp in reps:
             a, b = rp.args
@@ -263,6 +265,7 @@ def rule_url(ck):
     gval, enc, gplus = gp[0], gp[1], gp[2]
     gd = g.node.args.defaults
     ck.ob(rid, g, g.node, len(gd) == 2 and q.is_const(gd[1], True), "plus defaults to True on the unescaping side as well (same default mode as url_escape)", construct="url_unescape plus default")
+    ck.ob(rid, g, g.node, len(gd) == 2 and isinstance(gd[0], ast.Constant) and isinstance(gd[0].value, str) and gd[0].value.lower() in UTF8, "url_unescape decodes as UTF-8 by default, the encoding url_escape's quote() uses", construct="url_unescape encoding default")
     WANT_U = {True: "urllib.parse.unquote_plus", False: "urllib.parse.unquote"}
     derived = tainted_names(g, [gval])
     n_cases = 0
@@ -289,6 +292,9 @@ def rule_url(ck):
                 c = rt.ast.value
                 callee = _resolve_callee(m, g.node, c, env) if isinstance(c, ast.Call) else None
                 case = "url_unescape(encoding=%s, plus=%s)" % ("None" if ev is None else "<codec>", pv)
+                if _is_bypass(m, g.node, c, env):
+                    _fast_path(ck, rid, g, rt, flags, c, derived, case, pv, ev)
+                    continue
                 if ev is None:
                     ck.ob(rid, g, rt.ast, callee == "urllib.parse.unquote_to_bytes", "%s returns urllib.parse.unquote_to_bytes(...) (found %s)" % (case, callee), construct="%s -> %s" % (case, callee))
                     if isinstance(c, ast.Call) and c.args:
@@ -308,6 +314,47 @@ def rule_url(ck):
                         ck.ob(rid, g, rt.ast, q.dotted(e_arg) == enc, "%s forwards the caller's encoding" % case, construct="%s encoding" % case)
                         ck.ob(rid, g, rt.ast, bool(c.args) and bool(q.names_in(c.args[0]) & derived), "%s decodes the caller's value" % case, construct="%s value" % case)
     ck.floor(rid, n_cases, 4, "url_unescape cases")
+
+
+DECODERS = ("urllib.parse.unquote", "urllib.parse.unquote_plus", "urllib.parse.unquote_to_bytes")
+
+
+def _is_bypass(m, fn, c, env):
+    """The returned expression contains no call of a percent-decoder."""
+    if c is None:
+        return True
+    for x in ast.walk(c):
+        if isinstance(x, ast.Call) and _resolve_callee(m, fn, x, env) in DECODERS:
+            return False
+    return True
+
+
+def absent_at(cfg, node, needles, names):
+    """A dominating test established that none of ``needles`` occurs in one of ``names`` (``'%' in x`` false /
+    ``x.find('%') == -1`` ...) and the name was not rebound since."""
+    for t in cfg.stmt_nodes(lambda t: t.kind == "test"):
+        e = t.ast
+        if isinstance(e, ast.Compare) and len(e.ops) == 1 and isinstance(e.ops[0], (ast.In, ast.NotIn)) and isinstance(e.left, ast.Constant) and e.left.value in needles and q.dotted(e.comparators[0]) in names:
+            if branch_flag(cfg, q.unparse(e), isinstance(e.ops[0], ast.NotIn), [q.dotted(e.comparators[0])]).get(node.id, False):
+                return True
+    return False
+
+
+def _fast_path(ck, rid, g, rt, flags, c, derived, case, pv, ev):
+    """A return that skips the decoder (class: fast path around the normal processing).  It is the identity of
+    the normal path only if there is nothing to decode: no '%' in the text, and in plus mode no '+' either
+    (or the '+' translation already applied); bytes mode must still return bytes."""
+    names = (q.names_in(c) & derived) if c is not None else set()
+    if c is None or not names:
+        ck.ob(rid, g, rt.ast, False, "%s returns something that is not derived from the decoded value" % case, construct="%s fast path value" % case)
+        return
+    ck.ob(rid, g, rt.ast, absent_at(g.cfg, rt, ("%", b"%"), names), "%s skips percent-decoding only where '%%' is known to be absent from the text" % case, construct="%s fast path without '%%' test" % case)
+    if pv:
+        replaced = any(isinstance(x, ast.Call) and isinstance(x.func, ast.Attribute) and x.func.attr == "replace" and len(x.args) == 2 and q.is_const(x.args[0], "+") and q.is_const(x.args[1], " ") for x in ast.walk(c)) or all(len(fl) > 0 and any(nm in fl for nm in names) for fl in flags)
+        ck.ob(rid, g, rt.ast, replaced or absent_at(g.cfg, rt, ("+", b"+"), names), "%s: a fast path must still translate '+' to a space (or know that there is none)" % case, construct="%s fast path skips plus handling" % case)
+    if ev is None:
+        conv = isinstance(c, ast.Call) and (q.call_attr(c) in ("utf8", "encode", "bytes"))
+        ck.ob(rid, g, rt.ast, conv, "%s: the bytes-returning form returns bytes on the fast path too" % case, construct="%s fast path type" % case)
 
 
 def rule_qs(ck):
@@ -356,7 +403,8 @@ def rule_qs(ck):
         ok = res is not None and q.dotted(lp.iter.func.value) == res and len(stores) == 1 and q.dotted(comps[0].generators[0].iter) == kv[1] and not any(isinstance(x, (ast.Continue, ast.Break, ast.If)) for x in ast.walk(lp))
         if ok:
             out = q.dotted(stores[0].targets[0].value)
-            ok = all(q.dotted(r.ast.value) == out for r in returns(f)) and bool(returns(f))
+            empty_ok = branch_flag(f.cfg, qs, False, [qs])
+            ok = all(q.dotted(r.ast.value) == out or (isinstance(r.ast.value, ast.Dict) and not r.ast.value.keys and empty_ok.get(r.id, False)) for r in returns(f)) and any(q.dotted(r.ast.value) == out for r in returns(f))
         ck.ob(rid, f, lp, bool(ok), "every key of the parse result is copied with its re-encoded values, and that mapping is returned")
     elif len(dcomps) == 1 and not loops:
         dc = dcomps[0]
@@ -507,6 +555,7 @@ MUTANTS = [
     ("xhtml_escape leaves quotes alone", _in("xhtml_escape", replace_expr(lambda n: isinstance(n, ast.Call) and _u(n.func) == "html.escape", lambda n: parse_expr("html.escape(to_unicode(value), quote=False)"))), "C21.html"),
     ("xhtml_unescape skips the decoding of bytes", _in("xhtml_unescape", replace_expr(lambda n: isinstance(n, ast.Call) and _u(n.func) == "to_unicode", lambda n: n.args[0])), "C21.html"),
     ("json_encode without the '</' replacement", _in("json_encode", replace_expr(lambda n: isinstance(n, ast.Call) and isinstance(n.func, ast.Attribute) and n.func.attr == "replace", lambda n: n.func.value)), "C21.json"),
+    ("json_encode fast path tests for '</script' only", _in("json_encode", lambda fn: (fn.body.__setitem__(slice(len(fn.body) - 1, len(fn.body)), [parse_stmt("s = json.dumps(value)"), parse_stmt("if '</script' not in s:\n    return s"), parse_stmt("return s.replace('</', '<\\\\/')")]) or True)), "C21.json"),
     ("json_encode only protects '</script'", _in("json_encode", replace_expr(lambda n: q.is_const(n, "</"), lambda n: ast.Constant(value="</script"))), "C21.json"),
     ("json_encode replaces '</' by '< /' (not JSON-equivalent)", _in("json_encode", replace_expr(lambda n: q.is_const(n, "<\\/"), lambda n: ast.Constant(value="< /"))), "C21.json"),
     ("url_escape modes swapped", _in("url_escape", replace_expr(lambda n: isinstance(n, ast.IfExp), lambda n: ast.IfExp(test=n.test, body=n.orelse, orelse=n.body))), "C21.url"),
@@ -514,7 +563,10 @@ MUTANTS = [
     ("bytes mode forgets the '+' replacement", _impl("url_unescape", remove_stmts(lambda st: isinstance(st, ast.If) and _u(st.test) == "plus")), "C21.url"),
     ("bytes mode replaces '+' regardless of plus", _impl("url_unescape", replace_stmt(lambda st: isinstance(st, ast.If) and _u(st.test) == "plus", lambda st: st.body)), "C21.url"),
     ("bytes mode replaces '+' after percent-decoding", _impl("url_unescape", replace_stmt(lambda st: isinstance(st, ast.If) and _u(st.test) == "encoding is None", lambda st: [parse_stmt("if encoding is None:\n    raw = urllib.parse.unquote_to_bytes(value)\n    return raw.replace(b'+', b' ') if plus else raw")] + st.orelse)), "C21.url"),
+    ("seeded C21-adv1: fast path for text without '%' placed before the plus handling", _impl("url_unescape", lambda fn: (fn.body.insert(1 if isinstance(fn.body[0], ast.Expr) else 0, parse_stmt("if encoding is not None and isinstance(value, str) and '%' not in value:\n    return value")) or True)), "C21.url"),
+    ("fast path for text without '+' skips percent-decoding", _impl("url_unescape", lambda fn: (fn.body.insert(1 if isinstance(fn.body[0], ast.Expr) else 0, parse_stmt("if encoding is not None and isinstance(value, str) and '+' not in value and plus:\n    return value")) or True)), "C21.url"),
     ("text mode ignores the caller's encoding", _impl("url_unescape", replace_expr(lambda n: isinstance(n, ast.Call) and _u(n.func) == "unquote", lambda n: parse_expr("unquote(to_basestring(value))"))), "C21.url"),
+    ("url_unescape decodes latin-1 by default", _impl("url_unescape", lambda fn: (fn.args.defaults.__setitem__(0, ast.Constant(value="latin1")) or True)), "C21.url"),
     ("url_unescape defaults to plus=False", _impl("url_unescape", lambda fn: (fn.args.defaults.__setitem__(1, ast.Constant(value=False)) or True)), "C21.url"),
     ("values re-encoded as utf-8", _in("parse_qs_bytes", replace_expr(lambda n: isinstance(n, ast.Call) and isinstance(n.func, ast.Attribute) and n.func.attr == "encode", lambda n: parse_expr("i.encode('utf-8')"))), "C21.qs"),
     ("query parsed as utf-8", _in("parse_qs_bytes", replace_expr(lambda n: isinstance(n, ast.keyword) and n.arg == "encoding", lambda n: ast.keyword(arg="encoding", value=ast.Constant(value="utf-8")))), "C21.qs"),
